@@ -6,7 +6,7 @@ The real code builds the object `e` from it; then, on the real code,
     s = str(e);  p = y0.parser.parse_y0(s)
 
 Correspondence streams (real code vs Lean model, every case):
-  built     the object the builders/operators produce          vs  PyEval.evalExpr (construction AST)      [mod. order of equal-key factors]
+  built     the object the builders/operators produce          vs  PyEval.evalExpr (construction AST)      (strict, factor order included)
   tokens    Python's `tokenize` on str(e)                      vs  Print.expr e                         (i)
   ast       Python's `ast.parse(str(e), mode="eval")`           vs  PyParse.parse (Print.expr e)         (ii)
   reparsed  parse_y0(str(e))                                   vs  PyEval.parseY0 (Print.expr e)        (iii)
@@ -475,7 +475,7 @@ def run_python(case):
     tags["built"] = "ok"
     s = str(e)
     enc_e = PC.to_str_tree(PC.enc_expr(e))
-    out = {"built": ["ok", PC.norm_products(enc_e)], "domain": "true"}
+    out = {"built": ["ok", enc_e], "domain": "true"}
     out["tokens"] = PC.tokens_of(s)
     try:
         out["ast"] = ["ok", PC.to_str_tree(PC.ast_of(s))]
@@ -568,7 +568,7 @@ def _res(x, norm=False):
         return None
     if x[0] == "err":
         return ["err"]
-    return ["ok", PC.norm_products(x[1]) if norm else x[1]]
+    return ["ok", x[1]]
 
 
 def canon_model(case, rep):
